@@ -5,6 +5,7 @@ kind 0  (0 enc a pre (op ...))   sequential history on one log file; the file is
         enc: 0 scripted multi-chunk encoder / 1 the real PatternEncoder "{m}{n}"
         a: 1 append / 0 truncate     pre: (0) no file (and no directory) | (1 bytes)
         op: (0 (chunk ...)) append one record | (1 a) drop the appender and build a new one (mode a)
+            | (2 (chunk ...)) append a record whose scripted encoder writes the chunks, then returns Err
 kind 1  (1 a pre yield ((record ...) per thread))   N threads hammer ONE real FileAppender; the final
         file is handed to the model's trace validator (check_trace, proved sound in Coq): it must be the
         open content followed by whole records, every record exactly once, per-thread order kept.
@@ -21,7 +22,8 @@ SIZES = [0, 1, 1023, 1024, 1025, 2048, 5000]
 RULE = ("kind 0 (sequential, compared after every call): sweep of every size in {0,1,1023,1024,1025,2048,5000} as a "
         "single-chunk record and every ordered pair of those sizes as a two-chunk record, x {append,truncate} x "
         "pre-existing content {no file, empty, 4 bytes, 1030 bytes} x {scripted encoder, real PatternEncoder {m}{n}}, "
-        "followed by a small second record; then random histories of 1-6 ops (appends of 1-4 chunk records with "
+        "followed by a small second record; records whose ENCODER FAILS after writing p in {1,7,1023} bytes (append returns "
+        "Err before its flush) followed by records that leave 0, p-1, p, p+1 bytes in the buffer; then random histories of 1-6 ops (appends of 1-4 chunk records with "
         "sizes drawn from that set or split at random points, and drop+rebuild in either mode). "
         "kind 1 (concurrent, trace validation - not proof): 2-8 threads x 50-500 uniquely tagged records of 1-4 "
         "chunks on the real FileAppender, small records, records straddling the 1 KiB buffer, and records of 2-3 "
@@ -112,6 +114,15 @@ def seq_cases(rng, tier):
             for s2 in SIZES:
                 pre = rng.choice(P)
                 out.append([0, 0, a, pre, [[0, [body(rng, s1, False), body(rng, s2, False)]], [0, [b"x"]]]])
+    # a record whose encoder FAILS after having written p bytes (op 2), then records whose last chunk leaves
+    # 0, p-1, p, p+1 bytes in the 1 KiB buffer, an empty record, a record of one byte: whatever the failed call
+    # left behind, an acknowledged record is on disk in full when its call returns
+    for p in (1, 7, 1023):
+        for first in ([body(rng, 1024, False)], [body(rng, 2000, False)], []):
+            for tail in (0, max(p - 1, 0), p, p + 1):
+                for a in (1, 0):
+                    good = first + ([body(rng, tail, False)] if tail else [])
+                    out.append([0, 0, a, rng.choice(P), [[2, [body(rng, p, False)]], [0, good], [0, [b"z"]]]])
     n = 300 if tier == "quick" else 2500
     for _ in range(n):
         enc = 1 if rng.chance(1, 4) else 0
@@ -120,6 +131,10 @@ def seq_cases(rng, tier):
         for _k in range(rng.range(1, 6)):
             if rng.chance(1, 6):
                 ops.append([1, rng.below(2)])
+            elif enc == 0 and rng.chance(1, 7):
+                r = seq_record(rng, False, min(budget, 1500))
+                budget -= sum(len(c) for c in r)
+                ops.append([2, r])
             else:
                 r = seq_record(rng, enc == 1, budget)
                 budget -= sum(len(c) for c in r)
@@ -369,6 +384,7 @@ def describe(c):
                 "mode": "append" if c[2] else "truncate",
                 "pre": None if c[3][0] == 0 else "%d bytes" % len(c[3][1]),
                 "ops": [("append chunks " + "+".join(str(len(ch)) for ch in op[1])) if op[0] == 0
+                        else ("append, encoder fails after writing chunks " + "+".join(str(len(ch)) for ch in op[1])) if op[0] == 2
                         else ("reopen " + ("append" if op[1] else "truncate")) for op in c[4]]}
     if c[0] == 1:
         return {"kind": "concurrent", "mode": "append" if c[1] else "truncate",
